@@ -593,6 +593,13 @@ pub fn check_state(p: &Props, ops: &[Op], info: &PlanInfo, obs: &Obs, last_only:
                 }
             }
         }
+        if let Some(su) = &obs.setups2 {
+            for n in &info.nodes {
+                if n.kind != Kind::Batch && !n.is_static && su[n.id] != 2 {
+                    out.push(v("C13", "setup-skipped-on-populated-world", format!("system {} (depth {}) has been set up {} times after two Dispatcher::setup calls (the second on a world that already holds every resource)", n.id, n.depth, su[n.id])));
+                }
+            }
+        }
         if let Some(di) = &obs.disposes {
             for n in &info.nodes {
                 if n.kind != Kind::Batch && di[n.id] != 1 {
